@@ -223,6 +223,7 @@ struct Explorer {
 	// C03: lifecycle automaton over the complete trace of one instance (construction .. destruction)
 	void checkC03(const Exec& x) {
 		std::vector<uint8_t> entered(N, 0);
+		std::vector<uint8_t> enteredInj((size_t) N * 4, 0);
 		auto namedAncestorEntered = [&](int s) {
 			int p = E::D(s).parent;
 			while (p >= 0 && !E::named(p)) p = E::D(p).parent;
@@ -237,7 +238,18 @@ struct Explorer {
 			const int s = e.state;
 			// this pointer: every callback runs on the object access<State>() returns
 			if (e.layer == 0 && e.self != addr[s] && addr[s]) { violation("C03", "this/own", std::string("S") + str(s) + "." + METH_NAMES[e.meth] + " ran on a different object than access<S" + str(s) + ">() returns", x); return; }
-			if (e.layer) continue;	// injected bases: ordering is C05's business
+			if (e.layer) {
+				// injected bases are parts of the state: each of them sees the same alternation (their order relative to the
+				// state's own callback is C05's business)
+				const int L = e.layer < 4 ? e.layer : 3;
+				uint8_t& in = enteredInj[(size_t) s * 4 + (size_t) L];
+				if (e.meth == M_ENTER) { if (in) { violation("C03", "balance/double-enter-injected", "enter() delivered to injected base #" + str((int) e.layer) + " of S" + str(s) + " while it is already entered", x, E::traceText(x.trace, i > 12 ? i - 12 : 0, 30)); return; } in = 1; }
+				else if (e.meth == M_EXIT) { if (!in) { violation("C03", "balance/exit-not-entered-injected", "exit() delivered to injected base #" + str((int) e.layer) + " of S" + str(s) + " while it is not entered", x, E::traceText(x.trace, i > 12 ? i - 12 : 0, 30)); return; } in = 0; }
+				else if (e.meth == M_REENTER || e.meth == M_UPDATE || e.meth == M_REACT || e.meth == M_QUERY || e.meth == M_PRE_UPDATE || e.meth == M_POST_UPDATE) {
+					if (!in) { violation("C03", "delivery/injected", std::string(METH_NAMES[e.meth]) + "() delivered to injected base #" + str((int) e.layer) + " of S" + str(s) + " which is not entered", x, E::traceText(x.trace, i > 12 ? i - 12 : 0, 30)); return; }
+				}
+				continue;
+			}
 			switch (e.meth) {
 			case M_ENTER:
 				if (entered[s]) { violation("C03", "balance/double-enter", "enter(S" + str(s) + ") while already entered", x, E::traceText(x.trace, i > 12 ? i - 12 : 0, 30)); return; }
@@ -258,6 +270,8 @@ struct Explorer {
 			}
 			// after manual exit() returns nothing may be entered: checked at the next API marker / end
 		}
+		for (size_t k = 0; k < enteredInj.size(); ++k)
+			if (enteredInj[k]) { violation("C03", "balance/not-exited-at-end-injected", "an injected base of S" + str((int) (k / 4)) + " is still entered after exit()/destruction", x, E::traceText(x.trace, x.trace.size() > 30 ? x.trace.size() - 30 : 0, 30)); return; }
 		for (int s = 0; s < N; ++s)
 			if (entered[s]) { violation("C03", "balance/not-exited-at-end", "S" + str(s) + " still entered after exit()/destruction", x, E::traceText(x.trace, x.trace.size() > 30 ? x.trace.size() - 30 : 0, 30)); return; }
 		++compared;
